@@ -95,3 +95,20 @@ Definition c18_proc_violates (k : c18_proc_case) : bool :=
 
 Definition c18_proc_mismatches (ks : list c18_proc_case) : list nat := positions (map c18_proc_mismatch ks).
 Definition c18_proc_violations (ks : list c18_proc_case) : list nat := positions (map c18_proc_violates ks).
+
+(** ** direct calls of the wrapped cqrs handler (every branch of handler.go / OnCommandProcessed /
+    MarshalReply): compared with [on_processed]; judged by [processed_ok] after composing the
+    observed handler behaviour with the Router model of C02 *)
+Record c18_onproc_case := OPC {
+  oc_cfg : pcfg; oc_in : pinput; oc_enc : list (N * option N);
+  oc_evs : list pevent; oc_failed : bool
+}.
+Definition c18_onproc_mismatch (k : c18_onproc_case) : bool :=
+  let '(evs, f) := on_processed (tab_lookup (oc_enc k)) (oc_cfg k) (oc_in k) in
+  negb (list_eqb pevent_eqb evs (oc_evs k) && Bool.eqb f (oc_failed k)).
+Definition c18_onproc_violates (k : c18_onproc_case) : bool :=
+  let '(m, hev) := handle PubDisabled PubAccept (chain_of (oc_failed k)) in
+  negb (processed_ok (tab_lookup (oc_enc k)) (oc_cfg k) (oc_in k)
+          (map TP (oc_evs k) ++ map TR (filter (fun e => match e with HCall => false | _ => true end) hev)) (st m)).
+Definition c18_onproc_mismatches (ks : list c18_onproc_case) : list nat := positions (map c18_onproc_mismatch ks).
+Definition c18_onproc_violations (ks : list c18_onproc_case) : list nat := positions (map c18_onproc_violates ks).
